@@ -61,9 +61,32 @@ def main():
                 if os.path.exists(f):
                     os.unlink(f)
             sh(["rm", "-rf", f"/tmp/replay_seed_{os.getpid()}"])
-    for k, r in results:
+    store = []
+    for f in flags:
+        if f.startswith("--store="):
+            store = f.split("=", 1)[1].split(",")
+    for i, (k, r) in enumerate(results):
         print(f"== {prop} seed {k}")
         print(json.dumps(r, indent=1) if isinstance(r, dict) else r)
+        if store and isinstance(r, dict):
+            if not (r["demo_clean"] == 0 and r["demo_patched"] != 0 and "262/262" in r["baseline"]):
+                print(f"   NOT stored as {store[i]}: not confirmed")
+                continue
+            sd = VERIF / "seeded" / store[i]
+            sd.mkdir(parents=True, exist_ok=True)
+            (sd / "patch.diff").write_text((d / f"patch{k}.diff").read_text())
+            (sd / "demo.py").write_text((d / f"demo{k}.py").read_text())
+            try:
+                meta = json.loads((d / f"meta{k}.json").read_text())
+            except Exception:
+                meta = {}
+            meta.setdefault("property", prop)
+            meta["author"] = "independent sub-agent given only the property text and a scratch worktree"
+            meta["confirmed_by_me"] = dict(demo_on_clean_tree_exit=r["demo_clean"], demo_with_patch_exit=r["demo_patched"], baseline_with_patch=r["baseline"],
+                                           how="tools/try_seed.py: scratch worktree of /repo HEAD, demo before/after git apply, tools/baseline.py equivalent with PYTHONPATH on the worktree")
+            meta["first_check_result"] = {p: dict(exit=rc, findings=[x.replace("finding: ", "")[:200] for x in fs]) for p, (rc, fs) in r["checks"].items()}
+            (sd / "meta.json").write_text(json.dumps(meta, indent=1) + "\n")
+            print(f"   stored as seeded/{store[i]}")
 
 
 if __name__ == "__main__":
